@@ -407,12 +407,27 @@ def common_denominator_form(terms):
     (sound: it is an equivalent statement of the same claim, only easier for nlsat)."""
     nums, den = [], None
     for t in terms:
-        if not (z3.is_app(t) and t.decl().kind() == z3.Z3_OP_DIV and t.num_args() == 2):
+        n = d = None
+        if z3.is_app(t) and t.decl().kind() == z3.Z3_OP_DIV and t.num_args() == 2:
+            n, d = t.arg(0), t.arg(1)
+        elif z3.is_app(t) and t.decl().kind() == z3.Z3_OP_MUL:
+            # x * (1 / den)  (how `Q *= 1.0 / total` shows up)
+            args = list(t.children())
+            recips = [a for a in args if z3.is_app(a) and a.decl().kind() == z3.Z3_OP_DIV and z3.is_rational_value(a.arg(0)) and a.arg(0).as_fraction() == 1]
+            if len(recips) == 1:
+                d = recips[0].arg(1)
+                rest = [a for a in args if not a.eq(recips[0])]
+                n = rest[0] if len(rest) == 1 else z3.Product(rest)
+        elif z3.is_rational_value(t) and t.as_fraction() == 0:
+            n, d = t, den  # a literal zero fits any denominator
+        if n is None:
             return None
-        n, d = t.arg(0), t.arg(1)
-        if den is None:
-            den = d
-        elif not den.eq(d):
-            return None
+        if d is not None:
+            if den is None:
+                den = d
+            elif not den.eq(d):
+                return None
         nums.append(n)
+    if den is None:
+        return None
     return nums, den
